@@ -555,13 +555,34 @@ func c20Drive(ctx *RunCtx) {
 		keys = append(keys, k)
 	}
 	sort.Strings(keys)
+	// A finding is named by the unsynchronised WRITE site(s) of the racing pair - the root cause - so that
+	// which of the many readers happened to be scheduled against it does not change the name; a race on a
+	// storage map keeps the full pair as its name.
+	emitted := map[string]bool{}
 	for _, k := range keys {
-		what := "data race between " + strings.Replace(k, " | ", " and ", 1)
 		if strings.Contains(k, ":map") && strings.Contains(k, "internal/storage") {
-			what = "data race on a storage map: " + k
+			ctx.Meta.Findings = append(ctx.Meta.Findings, Finding{Property: "C20", Signature: k, What: "data race on a storage map: " + k,
+				Replay: map[string]any{"race_report": truncate(sigs[k], 6000), "workload": "verifharness_race c20work -tier " + ctx.Tier + " -seed " + fmt.Sprint(ctx.Seed)}})
+			continue
 		}
-		ctx.Meta.Findings = append(ctx.Meta.Findings, Finding{Property: "C20", Signature: k, What: what, Replay: map[string]any{"race_report": truncate(sigs[k], 6000),
-			"workload": "verifharness_race c20work -tier " + ctx.Tier + " -seed " + fmt.Sprint(ctx.Seed)}})
+		writers := 0
+		for _, part := range strings.Split(k, " | ") {
+			if strings.HasSuffix(part, ":write") {
+				writers++
+				sig := "unsynchronised-write:" + strings.TrimSuffix(part, ":write")
+				if emitted[sig] {
+					continue
+				}
+				emitted[sig] = true
+				ctx.Meta.Findings = append(ctx.Meta.Findings, Finding{Property: "C20", Signature: sig,
+					What: "data race: unsynchronised write in " + strings.TrimSuffix(part, ":write") + " (observed pair: " + k + ")",
+					Replay: map[string]any{"race_report": truncate(sigs[k], 6000), "workload": "verifharness_race c20work -tier " + ctx.Tier + " -seed " + fmt.Sprint(ctx.Seed)}})
+			}
+		}
+		if writers == 0 {
+			ctx.Meta.Findings = append(ctx.Meta.Findings, Finding{Property: "C20", Signature: k, What: "data race report without a write side: " + k,
+				Replay: map[string]any{"race_report": truncate(sigs[k], 6000)}})
+		}
 	}
 	// ask the model whether each observed signature is in its predicted set
 	var b strings.Builder
